@@ -22,7 +22,9 @@ NextR == Next /\ pi' = pi
 Outcome == [pi |-> pi, out |-> out, status |-> status, steps |-> steps]
 Emit == status.k # "running" => PrintT("OUTCOME " \o ToJson(Outcome))
 
-MaxSteps == 200000
-Fuel == steps < MaxSteps
+MaxSteps == 5000
+\* values stay small (a run that builds huge values is outside this model)
+SizeOk == \A i \in 1 .. Len(heap) : heap[i].k = "list" => Len(heap[i].items) <= 400
+Fuel == steps < MaxSteps /\ SizeOk
 OutOfFuel == (steps >= MaxSteps - 1 /\ status.k = "running") => PrintT("OUTCOME " \o ToJson([pi |-> pi, out |-> out, status |-> [k |-> "fuel"], steps |-> steps]))
 =============================================================================
